@@ -383,8 +383,13 @@ def insertInto (S : Schema) (ins : List Node) :
         | .error e => .error e
       | _ => flatInsert S ins parent level d0 idx
 
-/-- `Slice.insert_at(pos, fragment)`; `.ok none` = "Content does not fit in gap" -/
+/-- `Slice.insert_at(pos, fragment)`; `.ok none` = "Content does not fit in gap".
+    `if pos < 0 or pos > self.size: return None` comes first (beyond an open side the content would land next to the
+    open node and change which node the slice is open through; before that repair a step with `insert > slice.size`
+    could return a schema-invalid document).  `pos` is a `Nat` here: a negative `insert` (a peer can send one) is
+    outside the model's step type and answered `None` by the code. -/
 def Slice.insertAt (S : Schema) (sl : Slice) (pos : Nat) (frag : List Node) : Res (Option Slice) :=
+  if sl.size < (pos : Int) then .ok none else
   match insertInto S frag none sl.content (pos + sl.openStart) 0 sl.content (pos + sl.openStart)
       sl.openStart sl.openEnd with
   | .ok (some c) => .ok (some ⟨c, sl.openStart, sl.openEnd⟩)
